@@ -144,8 +144,11 @@ class C19(core.Prop):
                 self.capped["+".join(kinds)] = [len(sc), cap]
                 rng.shuffle(sc)
                 sc = sc[:cap]
-            for m in sc:
+            for j, m in enumerate(sc):
                 cases.append({"kinds": kinds, "moves": m, "stalled": stalled})
+                if j % 12 == 5:
+                    # the same schedule with every other message longer than 64 KiB
+                    cases.append({"kinds": kinds, "moves": m, "stalled": stalled, "big": True})
         return cases
 
     def model_input2(self, c, obs):
@@ -168,7 +171,7 @@ class C19(core.Prop):
             return "implementation %s %s" % (obs["status"], obs.get("detail", ""))
         if not isinstance(mout, list):
             return "model rejected input"
-        from harness.impl.c19 import msg_k
+        from harness.impl.c19 import msg_k, shown
         pos = 0
         for i, (mv, st) in enumerate(zip(c["moves"], obs["steps"])):
             if st["raised"]:
@@ -177,7 +180,7 @@ class C19(core.Prop):
             if pos == 0:
                 continue
             m = mout[pos - 1]
-            want = ["".join(msg_k(k).to_string().decode("latin1") for k in ks) for ks in m[0]]
+            want = ["".join(shown(msg_k(k, c.get("big")).to_string().decode("latin1"), c.get("big")) for k in ks) for ks in m[0]]
             if st["out"] != want:
                 return "after move %d %s: streams hold %s, model %s" % (i, mv, [len(x) for x in st["out"]], [len(x) for x in want])
             if st["nready_after"] != m[1]:
